@@ -828,7 +828,7 @@ func (w *wbuild) checkBuild(res *InvResult, req BuildReq, opts InvOpts, cm *cach
 		if reason == "cache-disabled" || reason == "no-cache" || reason == "tainted" {
 			forcedNow[l] = true
 		}
-		if executed[l] > 1 && !faulted {
+		if executed[l] > 1 && !faulted && !(w.fs != nil && w.fs.damaged) {
 			report("C03", "executed-twice", "load_outputs="+opts.LoadOutputs, fmt.Sprintf("%s executed %d times in one build", l, executed[l]))
 		}
 		if wd, ok := wrongDeps[l]; ok {
